@@ -51,6 +51,13 @@ func c20drivers() []c20driver {
 			c.Services = []Service{{Name: "s", Constructor: P("pk.New"), Args: []any{"%z_alias%", "%a_alias2%"}, Fields: []KV{{"F1", "%mid%"}}}}
 		}), threads: [][]ProbeOp{{op("param", "z_alias")}, {op("param", "mid")}, {op("get", "s")}},
 			threads2: [][]ProbeOp{{op("param", "z_alias"), op("param", "glued")}, {op("param", "a_alias2"), op("param", "mid")}, {op("get", "s"), op("param", "z_alias2")}}},
+		{id: "function-call-glued-to-text", cfg: base(func(c *Cfg) {
+			// a function call next to other chunks inside one value ('node-%fn()%'), as a parameter, as an alias of it, in an
+			// argument of a shared service and in a field: one call per parameter, whoever asks and however many ask
+			c.Params = []Param{{"glued", `node-%fnStr("g")%`}, {"two", `%fnStr("a")%:%fnStr("b")%`}, {"alias", "%glued%"}, {"around", "[%glued%|%two%]"}}
+			c.Services = []Service{{Name: "s", Constructor: P("pk.New"), Args: []any{"%glued%", `arg-%fnStr("s")%`}, Fields: []KV{{"F1", "%two%"}}}}
+		}), threads: [][]ProbeOp{{op("param", "glued")}, {op("param", "alias")}, {op("get", "s")}},
+			threads2: [][]ProbeOp{{op("param", "glued"), op("param", "around")}, {op("param", "two"), op("get", "s")}, {op("get", "s"), op("param", "alias")}}},
 		{id: "multichunk-concatenation", cfg: base(func(c *Cfg) {
 			c.Params = []Param{{"a", "A"}, {"b", 2}, {"m1", "%a%-%b%-%a%"}, {"m2", "[%b%/%a%/%b%]"}}
 			c.Services = []Service{{Name: "s", Constructor: P("pk.New"), Args: []any{"x%a%y%b%z"}, Scope: P("non_shared")}}
@@ -141,7 +148,7 @@ func init() {
 	Register(&Check{
 		ID:    "C20",
 		Level: "model_checking",
-		Rule: "17 drivers (plain aliases sorting before and after the function parameter they name, a todo parameter and a todo service overridden before dependants are requested concurrently, contextual members of a requested tag, getters that fail concurrently, a service with nothing injected that is contextual through the decorator on its tag, contextual services declared after todo services + single-reference alias parameters of a function parameter, shared chain with a multi-chunk parameter, %fn()% parameter used by two parameters, multi-chunk concatenation, contextual + unset-resolving-to-contextual under two attached contexts, non_shared + shared, tagged pair + consumer, decorated service, typed getters, several env()/envInt() chunks, a contextual service whose definition is spread over two files) x 3 threads x 1 operation on the same names: every interleaving with <= 2 preemptions (quick) / <= 3 preemptions and 2 operations per thread within a time budget (thorough); scheduling points before every Mutex.Lock, RWMutex.RLock/Lock and Once.Do of the runtime copy and before every statement of the generated code; " +
+		Rule: "18 drivers (a function call glued to text inside one value, plain aliases sorting before and after the function parameter they name, a todo parameter and a todo service overridden before dependants are requested concurrently, contextual members of a requested tag, getters that fail concurrently, a service with nothing injected that is contextual through the decorator on its tag, contextual services declared after todo services + single-reference alias parameters of a function parameter, shared chain with a multi-chunk parameter, %fn()% parameter used by two parameters, multi-chunk concatenation, contextual + unset-resolving-to-contextual under two attached contexts, non_shared + shared, tagged pair + consumer, decorated service, typed getters, several env()/envInt() chunks, a contextual service whose definition is spread over two files) x 3 threads x 1 operation on the same names: every interleaving with <= 2 preemptions (quick) / <= 3 preemptions and 2 operations per thread within a time budget (thorough); scheduling points before every Mutex.Lock, RWMutex.RLock/Lock and Once.Do of the runtime copy and before every statement of the generated code; " +
 			"per execution: no deadlock, every operation returns exactly what the sequential run returns (canonical object graphs incl. identity across threads), construction / function-call counters equal the sequential run's (each shared service and each parameter built once), contextual instances of distinct contexts distinct. Separate free-running pass of the same bodies with the real sync package under -race (16 goroutines x 600 rounds per driver). states = executions (complete schedules), transitions = scheduling decisions",
 		Assumptions: []string{
 			"the scheduler controls sync.Mutex, sync.RWMutex (writer preference) and sync.Once of the runtime's container package and every statement boundary of generated code; unsynchronised accesses below that granularity are left to the -race pass",
